@@ -23,6 +23,16 @@ import (
 type xNode struct {
 	ID   int
 	Type string
+	t    *xTrial
+}
+
+// Resolve makes every harness object a graphql.FieldResolver: fields without a Resolve function
+// (DefaultResolveFn) are resolved through the same recording resolver
+func (n *xNode) Resolve(p graphql.ResolveParams) (interface{}, error) {
+	if n == nil || n.t == nil {
+		return nil, nil
+	}
+	return n.t.resolve(p)
 }
 
 var xChan = make(chan int)
@@ -52,6 +62,7 @@ type xTrial struct {
 	varsSeen string
 	ctxTag  int
 	nnThunks bool
+	viaFR    bool // non-root fields have no Resolve function and are resolved through FieldResolver sources
 	tags    map[string]bool
 	root    map[string]interface{}
 }
@@ -163,14 +174,14 @@ func (t *xTrial) good(r *Rng, ty *xTy, depth int) interface{} {
 		return td.Vals[r.Intn(len(td.Vals))].Value
 	case "object":
 		t.nextID++
-		return &xNode{ID: t.nextID, Type: ty.Name}
+		return &xNode{ID: t.nextID, Type: ty.Name, t: t}
 	case "interface", "union":
 		ps := t.s.possible(ty.Name)
 		t.nextID++
 		if len(ps) == 0 {
-			return &xNode{ID: t.nextID, Type: "Q"}
+			return &xNode{ID: t.nextID, Type: "Q", t: t}
 		}
-		return &xNode{ID: t.nextID, Type: ps[r.Intn(len(ps))]}
+		return &xNode{ID: t.nextID, Type: ps[r.Intn(len(ps))], t: t}
 	}
 	return nil
 }
@@ -192,7 +203,7 @@ func (t *xTrial) adversarial(r *Rng, ty *xTy) interface{} {
 			return "str"
 		case 2:
 			t.nextID++
-			return &xNode{ID: t.nextID, Type: "O0"}
+			return &xNode{ID: t.nextID, Type: "O0", t: t}
 		}
 		// a list with one adversarial element
 		l := []interface{}{t.good(r, ty.Of, 1), t.adversarial(r, ty.Of), t.good(r, ty.Of, 1)}
@@ -221,7 +232,7 @@ func (t *xTrial) adversarial(r *Rng, ty *xTy) interface{} {
 		return append(nullish, 5, "src", []interface{}{1}, xChan)[r.Intn(7)]
 	case "interface", "union":
 		t.nextID++
-		return append(nullish, 5, "src", &xNode{ID: t.nextID, Type: "Q"}, &xNode{ID: t.nextID, Type: "Nope"})[r.Intn(7)]
+		return append(nullish, 5, "src", &xNode{ID: t.nextID, Type: "Q", t: t}, &xNode{ID: t.nextID, Type: "Nope", t: t})[r.Intn(7)]
 	}
 	return nil
 }
@@ -255,18 +266,31 @@ func (t *xTrial) outcomeCoq(o *xOutcome) string {
 func (t *xTrial) pick(r *Rng, ty *xTy, allowThunk bool) *xOutcome {
 	c := r.Intn(100)
 	p := t.pol
-	switch {
-	case c < p.Null:
+	lim := p.Null
+	if c < lim {
 		return &xOutcome{kind: "val", v: nil}
-	case c < p.Null+p.Err:
+	}
+	lim += p.Err
+	if c < lim {
 		return &xOutcome{kind: "err"}
-	case c < p.Null+p.Err+p.ValErr:
+	}
+	lim += p.ValErr
+	if c < lim {
 		return &xOutcome{kind: "valerr", v: t.good(r, ty, 1)}
-	case c < p.Null+p.Err+p.ValErr+p.Panic:
+	}
+	lim += p.Panic
+	if c < lim {
 		return &xOutcome{kind: []string{"panicerr", "panicstr", "panicother"}[r.Intn(3)]}
-	case c < p.Null+p.Err+p.ValErr+p.Panic+p.Thunk && allowThunk:
-		return &xOutcome{kind: "thunk", inner: t.pick(r, ty, false)}
-	case c < p.Null+p.Err+p.ValErr+p.Panic+p.Thunk+p.Adversarial:
+	}
+	lim += p.Thunk
+	if c < lim {
+		if allowThunk {
+			return &xOutcome{kind: "thunk", inner: t.pick(r, ty, false)}
+		}
+		return &xOutcome{kind: "val", v: t.good(r, ty, 1)}
+	}
+	lim += p.Adversarial
+	if c < lim {
 		return &xOutcome{kind: "val", v: t.adversarial(r, ty)}
 	}
 	return &xOutcome{kind: "val", v: t.good(r, ty, 1)}
@@ -509,8 +533,14 @@ type xObserved struct {
 
 func xRun(rq *xRequest) *xObserved {
 	t := &xTrial{s: rq.s, seed: rq.seed, pol: rq.pol, callPaths: map[string]int{}, tags: map[string]bool{}, ctxTag: int(rq.seed%1000) + 1,
-		root: map[string]interface{}{"__root": int(rq.seed % 77)}, nnThunks: NewRng(rq.seed, 4242).Chance(10)}
-	b, err := rq.s.build(&xHooks{Resolve: t.resolve, ResolveType: t.resolveType, IsTypeOf: t.isTypeOf})
+		root: map[string]interface{}{"__root": int(rq.seed % 77)}, nnThunks: NewRng(rq.seed, 4242).Chance(10), viaFR: NewRng(rq.seed, 777).Chance(25)}
+	if t.viaFR {
+		// every object source must be a harness node then
+		t.pol.Adversarial = 0
+		t.pol.BadType = 0
+		t.tags["default-resolve-fn"] = true
+	}
+	b, err := rq.s.build(&xHooks{Resolve: t.resolve, ResolveType: t.resolveType, IsTypeOf: t.isTypeOf, OmitResolve: t.viaFR})
 	if err != nil {
 		return &xObserved{fails: []string{"generated schema rejected: " + err.Error()}, invalid: true}
 	}
